@@ -981,6 +981,86 @@ func factsSpecMd(w *strings.Builder) {
 	fmt.Fprintf(w, "/-- F2: the tags listed in the \"Released versions\" table of SPEC.md. -/\ndef specMdReleased : List String := %s\n", leanStrList(tags))
 }
 
+// F12: which exported methods of *Schema (schema/schema.go) reach the content check - a function of that file which calls
+// into the internal validation package - and which reach the JSON-schema engine (a method that calls `Validate` of the
+// compiled gojsonschema schema, found as the unexported method named validate). Transitive over the functions of the file.
+func factsSchemaGlue(w *strings.Builder) {
+	f := parseFile("schema/schema.go")
+	type fn struct {
+		name  string
+		decl  *ast.FuncDecl
+		calls map[string]bool
+		pkg   map[string]bool
+	}
+	var fns []*fn
+	for _, d := range f.Decls {
+		fd, ok := d.(*ast.FuncDecl)
+		if !ok || fd.Body == nil {
+			continue
+		}
+		x := &fn{name: fd.Name.Name, decl: fd, calls: map[string]bool{}, pkg: map[string]bool{}}
+		if fd.Recv == nil {
+			x.name = "pkg." + x.name // package-level functions are kept apart from the methods of the same name
+		}
+		ast.Inspect(fd.Body, func(m ast.Node) bool {
+			if ce, ok := m.(*ast.CallExpr); ok {
+				switch t := ce.Fun.(type) {
+				case *ast.Ident:
+					x.calls["pkg."+t.Name] = true
+				case *ast.SelectorExpr:
+					if id, ok := t.X.(*ast.Ident); ok && id.Name == "validation" {
+						x.pkg["validation"] = true
+					}
+					x.calls[t.Sel.Name] = true
+				}
+			}
+			return true
+		})
+		fns = append(fns, x)
+	}
+	reach := func(seed func(*fn) bool) map[string]bool {
+		r := map[string]bool{}
+		for _, x := range fns {
+			if seed(x) {
+				r[x.name] = true
+			}
+		}
+		for changed := true; changed; {
+			changed = false
+			for _, x := range fns {
+				if r[x.name] {
+					continue
+				}
+				for c := range x.calls {
+					if r[c] {
+						r[x.name] = true
+						changed = true
+						break
+					}
+				}
+			}
+		}
+		return r
+	}
+	content := reach(func(x *fn) bool { return x.pkg["validation"] })
+	engine := reach(func(x *fn) bool { return x.name == "validate" })
+	if len(content) == 0 || len(engine) == 0 {
+		die("schema.go: no function calls the validation package / no method named validate")
+	}
+	exported := func(r map[string]bool) []string {
+		var out []string
+		for _, x := range fns {
+			if r[x.name] && x.decl.Recv != nil && ast.IsExported(x.decl.Name.Name) {
+				out = append(out, x.decl.Name.Name)
+			}
+		}
+		sort.Strings(out)
+		return out
+	}
+	fmt.Fprintf(w, "/-- F12: exported methods of *Schema that (transitively) run the annotation content check. -/\ndef schemaContentCheckers : List String := %s\n", leanStrList(exported(content)))
+	fmt.Fprintf(w, "/-- F12: exported methods of *Schema that (transitively) run the JSON-schema engine. -/\ndef schemaEngineCallers : List String := %s\n", leanStrList(exported(engine)))
+}
+
 func nodeString(n ast.Node) string {
 	var b strings.Builder
 	ast.Inspect(n, func(m ast.Node) bool {
@@ -1009,6 +1089,7 @@ func main() {
 	group(&w, "F4 edits", factsEdits, "def hookNames : List String := []\ndef deviceTypes : List String := []\ndef hookDispatch : List (String × String) := []\n")
 	group(&w, "F5 annotations", factsAnnotations, "def annotationPrefix : String := \"\"\ndef maxNameLen : Nat := 0\ndef k8sQualifiedNameFmt : String := \"\"\ndef k8sDns1123SubdomainFmt : String := \"\"\ndef k8sQualifiedNameMaxLength : Nat := 0\ndef k8sDns1123SubdomainMaxLength : Nat := 0\ndef totalAnnotationSizeLimit : Nat := 0\n")
 	group(&w, "F6 extensions", factsExts, "def extTests : List (String × List String) := []\ndef defaultSpecExt : String := \"\"\ndef tmpPattern : String := \"\"\ndef writeCalls : List String := []\n")
+	group(&w, "F12 schema glue", factsSchemaGlue, "def schemaContentCheckers : List String := [\"factgen-failed\"]\ndef schemaEngineCallers : List String := []\n")
 	group(&w, "F7 watch", factsWatch, "def eventMask : List String := []\ndef overflowRescans : Bool := false\n")
 	inGroup = false
 	fmt.Fprintf(&w, "\n/-- extractors that failed on this tree (their facts above are empty fallbacks) -/\ndef factgenErrors : List String := %s\n", leanStrList(factErrors))
